@@ -24,6 +24,10 @@ LEAFTYPES = {
     "Float[a b]": (["arr", "a b"], [A((2, 3)), A((3, 3)), A((2,))]),
     "Union[int,Float[a]]": (["union", [["int"], ["arr", "a"]]], [["lit", 1], A((2,)), A((3,))]),
     "Union[Float[a 3],Float[b a]]": (["union", [["arr", "a 3"], ["arr", "b a"]]], [A((2, 5)), A((2, 3)), A((4, 4))]),
+    # the leaf type spelt literally None; a union of an array annotation with a CONTAINER of array
+    # annotations (the root of a tree may match a prefix of the container alternative and then fail)
+    "None": (["nonelit"], [["lit", 1], ["lit", "s"]]),
+    "Union[Float[*v],tuple[Float[a *v],int]]": (["union", [["arr", "*v"], ["tuple", [["arr", "a *v"], ["int"]]]]], [A((2, 5)), A((3, 5)), ["lit", 1]]),
     # string (forward-reference) leaf types, whole and nested in a generic
     "'int'": (["fwd", "int"], [["lit", 1], ["lit", 1.0], ["lit", "s"]]),
     "tuple['int','str']": (["tuple", [["fwd", "int"], ["fwd", "str"]]], [["lit", 1], ["lit", "s"], ["lit", 1.5]]),
